@@ -176,7 +176,7 @@ CHECKS = {
  "C02": dict(cat=MC, design="DESIGN.md §3 C02, §8",
    text="spec/algo transcribes each format's published algorithm: ShaCrypt.tla (Drepper's numbered steps for SHA-256/512-crypt, PHK's md5-crypt incl. the apr variant, "
         "NetBSD sha1-crypt) and Formats.tla (hex/LDAP/salted digests, mysql41, postgres, oracle11, mssql2000/2005, htdigest, Django salted, phpass, FSHP, cisco pix/asa/type7, "
-        "all PBKDF2-family spellings, scrypt, scram, bcrypt / bcrypt_sha256 v1+v2 / django_bcrypt_sha256, {CRYPT} wrappers, plaintext) build, for a SHAPE (password length, salt size, "
+        "all PBKDF2-family spellings, scrypt in both spellings ($scrypt$ and $7$, the latter self-tested on Tarsnap's vector), scram, bcrypt / bcrypt_sha256 v1+v2 / django_bcrypt_sha256, {CRYPT} wrappers, plaintext) build, for a SHAPE (password length, salt size, "
         "cost, variant, user length), the straight-line PROGRAM of byte-string terms fed to primitive symbols; TLC emits it and the harness evaluates it over concrete bytes with "
         "hashlib/hmac/bcrypt-C only. TlcFormats.tla specifies des_crypt, bsdi_crypt (key folding), bigcrypt, crypt16, lmhash, oracle10 (DES-CBC-MAC), nthash, msdcc, mysql323 "
         "completely over prim/Des.tla, prim/Md4.tla and limb arithmetic, and TLC computes the digests. For every case of the sweep (lengths 0..256/4096 incl. the block boundaries, "
@@ -184,7 +184,7 @@ CHECKS = {
         "verify(reference) must be True and a near-miss password False, with the pure-Python backend selected. The transcriptions are validated in the same run against libxcrypt and "
         "published vectors; crypt()- and Django-made strings must verify under passlib and django_* output must equal Django's.",
    note="Trusted: TLC, hashlib/hmac/OpenSSL, bcrypt-C, libxcrypt, Django, Python's str.upper/encode for text transformations. sun_md5_crypt is covered by libxcrypt-made strings only; "
-        "argon2 has no backend on this host; scrypt's $7$ spelling is not transcribed.",
+        "argon2 has no backend on this host.",
    technique="TLA+ specifications of the formats emitting reference programs per shape (TLC) evaluated over trusted primitives + formats over DES/MD4 evaluated entirely by TLC, replayed against the real hashers; provider cross-checks"),
  "C11": dict(cat=MC, design="DESIGN.md §3 C11, §8",
    text="spec/prim transcribes the standards into TLA+ and TLC evaluates them: Md4.tla (RFC 1320, self-tested on the RFC vectors) gives the digest "
